@@ -1,7 +1,7 @@
 (* driver for the C07 models: cache state machine trace (integers only) and the conditioning formula at floats *)
 let o = float_ops
 let () = run_protocol [
-  "trace", (function [f1; f2; f3; f4; f5; f6; f7; sd; rows] -> rzm (trace (gb f1) (gb f2) (gb f3) (gb f4) (gb f5) (gb f6) (gb f7) (gn sd) (gzm rows)) | _ -> failwith "arity");
+  "trace", (function [f1; f2; f3; f4; f5; f6; f7; f8; sd; rows] -> rzm (trace (gb f1) (gb f2) (gb f3) (gb f4) (gb f5) (gb f6) (gb f7) (gb f8) (gn sd) (gzm rows)) | _ -> failwith "arity");
   "cond_field", (function [nug; var; ks; kvs; rs; zs] ->
       VV (cond_field o (gf nug) (gf var) (gv ks) (gv kvs) (gv rs) (gv zs)) | _ -> failwith "arity");
   "scaling", (function [nug; var; kv] -> let (a, b) = scaling o (gf nug) (gf var) (gf kv) in VT [VF a; VF b] | _ -> failwith "arity");
